@@ -310,6 +310,41 @@ func genStorePlan(t *Tape, name string) *Plan {
 		g.plan.Ops = append(g.plan.Ops, Op{Kind: "subscribe", Slot: 1, Pkt: &refcodec.Packet{Type: refcodec.SUBSCRIBE, PacketID: 502, Filters: []refcodec.Filter{{Filter: "c:t", Opts: 1}}}})
 		g.slots[1].subs = append(g.slots[1].subs, "c:t")
 	}
+	if !adversarial && t.Draw("st.qos2half", 3) == 0 {
+		// a QoS 2 delivery stopped half way, then the session is resumed once *before* the restart: a persistent
+		// subscriber acknowledges by hand, sends PUBREC (or nothing) and no PUBCOMP, loses the connection and
+		// reconnects with clean start 0. What the resume re-registers (PUBLISH or PUBREL) is what the store must hold.
+		ci := g.Connect(0)
+		g.plan.Ops[ci].Pkt.CleanStart = false
+		g.plan.Ops[ci].AckMode = 1
+		if g.plan.Ops[ci].Pkt.ProtoVer == 5 {
+			var props refcodec.Props
+			for _, pr := range g.plan.Ops[ci].Pkt.Props {
+				if pr.ID != refcodec.PSessionExpiry {
+					props = append(props, pr)
+				}
+			}
+			g.plan.Ops[ci].Pkt.Props = append(props, refcodec.Prop{ID: refcodec.PSessionExpiry, Int: 300})
+		}
+		g.plan.Ops = append(g.plan.Ops, Op{Kind: "subscribe", Slot: 0, Pkt: &refcodec.Packet{Type: refcodec.SUBSCRIBE, PacketID: 503, Filters: []refcodec.Filter{{Filter: topics[0], Opts: 2}}}})
+		g.slots[0].subs = append(g.slots[0].subs, topics[0])
+		g.Connect(3)
+		pi := g.Publish(3)
+		g.plan.Ops[pi].Pkt.Topic, g.plan.Ops[pi].Pkt.Qos, g.plan.Ops[pi].Pkt.Retain = topics[0], 2, false
+		if g.plan.Ops[pi].Pkt.PacketID == 0 {
+			g.plan.Ops[pi].Pkt.PacketID = g.pid(3)
+		}
+		if t.Draw("st.qos2half.pubrec", 3) > 0 {
+			g.add(Op{Kind: "ack", Slot: 0, N: 0}) // PUBREC: the broker answers PUBREL and waits for PUBCOMP
+		}
+		g.Drop(0)
+		ci2 := g.Connect(0)
+		g.plan.Ops[ci2].Pkt.CleanStart = false
+		g.plan.Ops[ci2].Pkt.ProtoVer = g.plan.Ops[ci].Pkt.ProtoVer
+		g.plan.Ops[ci2].Pkt.Props = g.plan.Ops[ci].Pkt.Props
+		g.plan.Ops[ci2].AckMode = 1
+		g.slots[0].ver = g.plan.Ops[ci].Pkt.ProtoVer
+	}
 	n := 6 + t.Draw("st.len", 9)
 	for len(g.plan.Ops) < n {
 		g.Step()
@@ -328,6 +363,10 @@ func genStorePlan(t *Tape, name string) *Plan {
 			ver = 5
 		}
 		p := &refcodec.Packet{Type: refcodec.CONNECT, ProtoVer: ver, ClientID: g.slots[s].id, CleanStart: false}
+		if t.Draw("st.verify.clean", 3) == 0 {
+			// ... or with clean start 1: nothing of the restored session may then reach the new connection
+			p.CleanStart = true
+		}
 		if ver == 5 {
 			p.Props = refcodec.Props{{ID: refcodec.PSessionExpiry, Int: 300}}
 		}
@@ -414,6 +453,18 @@ func judgeAfterRestart(r *Result, prop string, backend string) []Violation {
 		v.Detail = "[" + backend + "] after restart: " + v.Detail
 		out = append(out, v)
 	}
+	// A message that was past PUBREC and comes back as PUBLISH (DUP) after the restart is still the same
+	// unacknowledged in-flight message, one step earlier in its exchange (the broker stores the PUBREL stage only
+	// when the session is next resumed); the statements speak of the messages being there, so that is not judged
+	// here. A message for which neither PUBREL nor PUBLISH comes back is lost.
+	regressed := map[string]bool{}
+	for _, v := range checkOutboundFlows(r, "C09") {
+		if v.Class == "publish-resent-after-pubrec" {
+			if i := strings.Index(v.Detail, " was past PUBREC"); i > 0 {
+				regressed[v.Detail[:i]] = true
+			}
+		}
+	}
 	for _, v := range checkC14(r) {
 		switch v.Class {
 		case "session-present":
@@ -421,6 +472,9 @@ func judgeAfterRestart(r *Result, prop string, backend string) []Violation {
 		case "resumed-subscription-lost":
 			keep(v, "subscription-not-restored")
 		case "resumed-inflight-lost":
+			if i := strings.Index(v.Detail, " was past PUBREC"); i > 0 && regressed[v.Detail[:i]] {
+				continue
+			}
 			keep(v, "inflight-not-restored")
 		case "state-survived-clean-start":
 			keep(v, "discarded-state-resurrected")
